@@ -84,6 +84,10 @@ struct World<S: KalmanStorage<SimClock>> {
     /// this run has fed the filter an exchange between two internal clocks that both still had the
     /// 1e18 s initial offset uncertainty (the ill-conditioned situation of known finding 2)
     untied_pair_measured: bool,
+    /// an injected fault has made the filter's model and the real clocks inconsistent (a clock was stepped or
+    /// steered in a call that then failed with an injected ClockError, so the filter never absorbed it; a
+    /// clock was moved behind the controller's back; an outlier measurement or a now() glitch was fed in)
+    desync: bool,
     query_finding_reported: bool,
 }
 
@@ -501,6 +505,7 @@ impl<S: KalmanStorage<SimClock>> World<S> {
     fn op_meddle(&mut self) {
         let live: Vec<usize> = self.ints.iter().enumerate().filter(|(_, c)| c.live).map(|(i, _)| i).collect();
         let i = live[choose("meddle.clock", live.len() as u64) as usize];
+        self.desync = true;
         match weighted("meddle.kind", &[3, 3, 2, 2]) {
             0 => {
                 let d = [1e-3, 5e-6, 0.25, 4.0, 30.0][choose("meddle.fwd", 5) as usize];
@@ -557,6 +562,7 @@ impl<S: KalmanStorage<SimClock>> World<S> {
         let mut recv = self.reading(to);
         if self.cfg.outliers && chance("meas.outlier", 0.03) {
             fault("measurement-outlier");
+            self.desync = true;
             recv = recv + Duration::from_f64_seconds([0.5, -0.5, 1e-3, 100.0][choose("meas.outlier.kind", 4) as usize]);
         }
         self.advance(choose("meas.proc", 200_000));
@@ -644,7 +650,15 @@ impl<S: KalmanStorage<SimClock>> World<S> {
         let finite = |v: &FilterView| v.est.state.iter().all(|x| x.is_finite()) && (0..v.est.rows).all(|i| v.est.cov.get(i * v.est.rows + i).map(|x| x.is_finite()).unwrap_or(false));
         let was_finite = finite(&before);
         let is_finite = finite(&after);
-        if was_finite {
+        // Range overflow (non-finite estimates, steps beyond +-2^63 s) in a run in which an injected fault has
+        // already made filter and clocks inconsistent, and which never hit the ill-conditioned untied-pair
+        // situation, is attributed to the fault (garbage in): counted, not judged. In fault-free runs, and
+        // before any such fault has fired, it is judged.
+        let overflow_excused = self.desync && !self.untied_pair_measured;
+        if (!is_finite || saturated) && overflow_excused {
+            probe("range-overflow-after-injected-fault");
+        }
+        if was_finite && !overflow_excused {
             let bad: Vec<String> = self
                 .ints
                 .iter()
@@ -750,6 +764,9 @@ impl<S: KalmanStorage<SimClock>> World<S> {
                             // judged by estimates-stay-finite above
                             continue;
                         }
+                        if step.abs() >= SATURATED_S && overflow_excused {
+                            continue;
+                        }
                         let close = |got: f64, want: f64, scale: f64| (got - want).abs() <= 1e-15 + 1e-12 * scale.abs().max(want.abs());
                         if stepped {
                             probe("clock-stepped");
@@ -783,6 +800,7 @@ impl<S: KalmanStorage<SimClock>> World<S> {
             let steered = calls.iter().flatten().any(|c| matches!(c, Call::Step(_) | Call::SetFrequency { .. }));
             if steered {
                 probe("clock-steered-in-failed-call");
+                self.desync = true;
             }
         }
         if let Some(l) = after.links.iter().find(|l| l.id == lid) {
@@ -931,6 +949,7 @@ impl<S: KalmanStorage<SimClock>> World<S> {
             stop: false,
             tame: false,
             untied_pair_measured: false,
+            desync: false,
             query_finding_reported: false,
         };
         w.tame = tame;
